@@ -90,6 +90,7 @@ let print_entry (two : bool) (e : entry) : unit =
     let inA = (c = CA) and inB = (if two then c = CB else c = CA) in
     Printf.printf "E %s %c %c %s %s %s\n" (string_of_q t) (char_of_clk c) (if r then 'r' else 'f')
       (if inA then string_of_val ra else "-") (if inA then string_of_val ra2 else "-") (if inB then string_of_val rb else "-")
+  | LPhase (t, ph) -> Printf.printf "P %s %c\n" (string_of_q t) (char_of_phase ph)
   | LMicro (t, ph, mt) -> Printf.printf "M %s %c %d\n" (string_of_q t) (char_of_phase ph) (int_of_n mt)
   | LCommit (t, ra, ra2, rb, c) ->
     Printf.printf "C %s %s %s %s %s\n" (string_of_q t) (string_of_val ra) (string_of_val ra2) (string_of_val rb) (string_of_val c)
